@@ -40,7 +40,9 @@ class _Quoter:
             raise TypeError("Argument should be str")
         if not val:
             return ""
-        bval = val.encode("utf8", errors="ignore")
+        # lone surrogates are dropped while scanning (like the C implementation
+        # does), so that they break up a percent-encoded sequence
+        bval = val.encode("utf8", errors="surrogatepass")
         ret = bytearray()
         pct = bytearray()
         safe = self._safe
@@ -99,6 +101,10 @@ class _Quoter:
 
                 continue
 
+            if ch == 0xED and idx < len(bval) and bval[idx] >= 0xA0:
+                # UTF-8 encoded surrogate (only "surrogatepass" produces it)
+                idx += 2
+                continue
             if self._qs and ch == ord(" "):
                 ret.append(ord("+"))
                 continue
